@@ -58,7 +58,11 @@ def case_strategy(draw):
     c["first"] = draw(st.sampled_from(
         [None, "st_covd_udown4", "accelerationdown4", "theta", "sheardown4",
          "omega2", "s_RicciS_u", "dtconserved", "st_Gamma_udd4",
-         "st_Gamma_udd4", "dtgammaup3"]))
+         "st_Gamma_udd4", "dtgammaup3", "Weyl_Psi"]))
+    if c["first"] == "Weyl_Psi":
+        # the Weyl scalars on the fluid-adapted tetrad (whose time leg is the
+        # 4-velocity itself) before the kinematic quantities
+        c["kw"] = dict(c["kw"], tetrad="fluid")
     return c
 
 
@@ -213,6 +217,9 @@ def generic_cases():
                     matter="Tdown4", vacuum=False, kw=KW))
     out.append(dict(cases.generic_KSin(4), Lambda=0.0, form="components",
                     matter="none", vacuum=False, kw=KW))
+    out.append(dict(cases.generic_W(4), Lambda=0.0, form="components",
+                    matter="Tdown4", vacuum=False,
+                    kw=dict(KW, tetrad="fluid"), first="Weyl_Psi"))
     return out
 
 
